@@ -1,5 +1,9 @@
 import GrmVerif.Props.C04
 import GrmVerif.Model.Canon
+import GrmVerif.Lemmas.PagerGc
+import GrmVerif.Lemmas.PagerWeak
+import GrmVerif.Lemmas.PagerInvB
+import GrmVerif.Lemmas.PagerCert
 /-!
 # C02 — state minimisation never costs an LR(1) grammar its determinism
 
@@ -60,5 +64,398 @@ theorem same_first_error (G : Grammar) (Ac Ap : Automaton) (hc : check G Ac = tr
   Nat.le_antisymm
     (C04.error_position_unique G Ap Ac hp hc hvc An hAn hlp w hw f2 f1 j i s2 s1 h2 h1)
     (C04.error_position_unique G Ac Ap hc hp hvp An hAn hlc w hw f1 f2 i j s1 s2 h1 h2)
+
+/-! ## The construction algorithm itself (`Model/PagerImpl.lean`, tied to `pager_stategraph` per grammar)
+
+The theorems below are about the line-by-line model of `lrtable/src/lib/pager.rs`; the check replays the
+hash-map iteration orders recorded by the hook and demands that the model reproduces the real pre-gc
+state list, edges, `state_i` sequence and final `StateGraph` exactly (`Ig`/`Mg` lines). -/
+
+open GrmVerif.PagerImpl GrmVerif.CloseImpl
+
+/-- **`gc` keeps exactly the reachable states, in order, and renumbers the edges consistently.** For any
+state list, any start state in range and any edge table (one map per state) whose targets are in range:
+the model of `gc` ends normally (no panic: `offsets[v]` is always in range; no fuel exhaustion with the
+`|states| + 1` units the model gives the reachability loop) with `(states', edges')` such that, writing
+`gcIndex s` for the number of reachable states before `s`:
+* there are as many kept states (and edge maps) as reachable states;
+* every reachable old state `s` sits at position `gcIndex s` and its edge map there is the old one with
+  every target `t` replaced by `gcIndex t` (kept edges `(s, sym, t)` appear as `(gcIndex s, sym, gcIndex t)`);
+* nothing else is kept: every new index is `gcIndex s` of a reachable `s`;
+* the original relative order is preserved (`gcIndex` is strictly increasing on reachable states);
+* `gcIndex s` is the old index minus the number of dropped (unreachable) states before it;
+* all new targets are in range;
+* the start state stays 0 when it was 0. -/
+theorem gc_spec {α : Type} (states : List α) (start : Nat) (edges : List (List (Sym × Nat)))
+    (hlen : edges.length = states.length) (hstart : start < states.length)
+    (hrange : ∀ (s : Nat) (es : List (Sym × Nat)), edges[s]? = some es → ∀ e ∈ es, e.2 < states.length) :
+    ∃ states' edges', gc states start edges = .ok (states', edges') ∧
+      states'.length = gcIndex edges start states.length ∧ edges'.length = states'.length ∧
+      (∀ s, s < states.length → Reach edges start s →
+        states'[gcIndex edges start s]? = states[s]? ∧
+        edges'[gcIndex edges start s]? = (edges[s]?).map (relabel (gcIndex edges start))) ∧
+      (∀ k, k < states'.length → ∃ s, s < states.length ∧ Reach edges start s ∧ gcIndex edges start s = k) ∧
+      (∀ s t, s < t → Reach edges start s → gcIndex edges start s < gcIndex edges start t) ∧
+      (∀ s, gcIndex edges start s + droppedBefore edges start s = s) ∧
+      (∀ es ∈ edges', ∀ e ∈ es, e.2 < states'.length) ∧
+      (start = 0 → gcIndex edges start start = 0) := by
+  classical
+  obtain ⟨states', edges', hgc, hl1, hl2, hA⟩ := gc_core states start edges hlen hstart hrange
+  have hsurj : ∀ k, k < states'.length → ∃ s, s < states.length ∧ Reach edges start s ∧ gcIndex edges start s = k := by
+    intro k hk
+    rw [hl1] at hk
+    obtain ⟨s, h1, h2, h3⟩ := keptBefore_surj _ _ _ hk
+    exact ⟨s, h1, by simpa using h2, h3⟩
+  refine ⟨states', edges', hgc, hl1, by omega, hA, hsurj, ?_, ?_, ?_, ?_⟩
+  · intro s t hst hr
+    exact keptBefore_lt _ hst (by simpa using hr)
+  · exact gcIndex_add_dropped edges start
+  · intro es hes e he
+    obtain ⟨k, hk, hget⟩ := List.getElem_of_mem hes
+    obtain ⟨s, hs, hr, hks⟩ := hsurj k (by omega)
+    have h2 := (hA s hs hr).2
+    rw [hks, List.getElem?_eq_getElem hk, hget] at h2
+    have hes' : ∃ es0, edges[s]? = some es0 := ⟨edges[s]'(by omega), List.getElem?_eq_getElem (by omega)⟩
+    obtain ⟨es0, hes0⟩ := hes'
+    rw [hes0] at h2
+    simp only [Option.map_some, Option.some.injEq] at h2
+    rw [h2] at he
+    obtain ⟨e0, he0, rfl⟩ := List.mem_map.mp he
+    have hlt := hrange s es0 hes0 e0 he0
+    have hr' : Reach edges start e0.2 := .step s e0.2 e0.1 es0 hr hes0 he0
+    rw [hl1]
+    exact keptBefore_lt _ hlt (by simpa using hr')
+  · intro h0; rw [h0]; exact keptBefore_zero _
+
+/-- **`weakly_compatible` decides Pager's condition.** For two item sets that are hash maps (distinct
+keys), `self` non-empty, and `keys` any duplicate-free enumeration of the keys of `self` (the order in
+which `self.items.keys()` yields them): the model ends normally and answers `true` exactly when the
+declarative condition `WeaklyCompatibleSpec` holds — same core items, and for every pair `i ≠ j` of
+core items: contexts (self i, other j) and (self j, other i) both disjoint, or self i ∩ self j ≠ ∅, or
+other i ∩ other j ≠ ∅. (For an EMPTY `self` and `other` the real code computes `len - 1` with
+`len = 0`; item sets built by `goto` are never empty.) -/
+theorem weakly_compatible_spec (self other : List Item) (hs : KeysNodup self) (ho : KeysNodup other)
+    (keys : List (Nat × Nat)) (hknd : keys.Nodup) (hkeys : ∀ k, k ∈ keys ↔ CloseImpl.HasItem self k.1 k.2)
+    (hne : self ≠ []) :
+    ∃ b, weaklyCompatible self other keys = some b ∧ (b = true ↔ WeaklyCompatibleSpec self other) :=
+  weaklyCompatible_spec hs ho keys hknd hkeys hne
+
+/-- **The answer of `weakly_compatible` does not depend on the order of `keys`**: two enumerations of
+the keys of `self` give the same answer (and neither panics). -/
+theorem weakly_compatible_order_irrelevant (self other : List Item) (hs : KeysNodup self) (ho : KeysNodup other)
+    (k1 k2 : List (Nat × Nat)) (hn1 : k1.Nodup) (hn2 : k2.Nodup)
+    (h1 : ∀ k, k ∈ k1 ↔ CloseImpl.HasItem self k.1 k.2) (h2 : ∀ k, k ∈ k2 ↔ CloseImpl.HasItem self k.1 k.2)
+    (hne : self ≠ []) :
+    ∃ b, weaklyCompatible self other k1 = some b ∧ weaklyCompatible self other k2 = some b := by
+  obtain ⟨b1, e1, p1⟩ := weaklyCompatible_spec hs ho k1 hn1 h1 hne
+  obtain ⟨b2, e2, p2⟩ := weaklyCompatible_spec hs ho k2 hn2 h2 hne
+  refine ⟨b1, e1, ?_⟩
+  rw [e2]
+  congr 1
+  cases b1 <;> cases b2 <;> simp_all
+
+/-- **`weakly_compatible` is symmetric**: `a.weakly_compatible(b) = b.weakly_compatible(a)` for non-empty
+hash maps, each call iterating over its own receiver's keys in any order. -/
+theorem weakly_compatible_symm (a b : List Item) (ha : KeysNodup a) (hb : KeysNodup b)
+    (ka kb : List (Nat × Nat)) (hna : ka.Nodup) (hnb : kb.Nodup)
+    (h1 : ∀ k, k ∈ ka ↔ CloseImpl.HasItem a k.1 k.2) (h2 : ∀ k, k ∈ kb ↔ CloseImpl.HasItem b k.1 k.2)
+    (hnea : a ≠ []) (hneb : b ≠ []) :
+    ∃ r, weaklyCompatible a b ka = some r ∧ weaklyCompatible b a kb = some r := by
+  obtain ⟨b1, e1, p1⟩ := weaklyCompatible_spec ha hb ka hna h1 hnea
+  obtain ⟨b2, e2, p2⟩ := weaklyCompatible_spec hb ha kb hnb h2 hneb
+  refine ⟨b1, e1, ?_⟩
+  rw [e2]
+  congr 1
+  rw [weaklyCompatibleSpec_symm] at p2
+  cases b1 <;> cases b2 <;> simp_all
+
+/-- **`weakly_merge`: every context becomes the union; the flag says whether some context grew.** For
+hash maps `self`, `other` where `other` has every key of `self` (true after a successful compatibility
+test): the model ends normally (no missing key) with an item set that has the keys of `self` in the same
+order, in which token `t` is in the context of item `[p, d]` iff it was there in `self` or is there in
+`other`; the returned flag is `true` iff some token of `other`'s context of some item was not in
+`self`'s. -/
+theorem weakly_merge_spec (self other : List Item) (hs : KeysNodup self) (ho : KeysNodup other)
+    (hsub : ∀ p d, CloseImpl.HasItem self p d → CloseImpl.HasItem other p d) :
+    ∃ R ch, weaklyMerge self other = some (R, ch) ∧ keysOf R = keysOf self ∧
+      (∀ p d t, HasLa R p d t ↔ HasLa self p d t ∨ (CloseImpl.HasItem self p d ∧ HasLa other p d t)) ∧
+      (ch = true ↔ ∃ p d t, CloseImpl.HasItem self p d ∧ HasLa other p d t ∧ ¬ HasLa self p d t) :=
+  weaklyMerge_spec self other hs ho hsub
+
+/-- **`goto`: exactly the items with the dot before `sym`, advanced, contexts carried.** For an item set
+`cl` whose items are in range (`p < prods_len`, `dot ≤ prod_len(p)`): the model ends normally (no index
+panic) with a hash map `R` (distinct keys) whose items are exactly `{[p, d+1] | [p, d] ∈ cl, the symbol at
+position d of p is sym}` and in which `t` is in the context of `[p, d+1]` iff it is in the context of
+`[p, d]` in `cl`. -/
+theorem goto_spec (G : Grammar) (sym : Sym) (cl : List Item)
+    (hok : ∀ i ∈ cl, i.p < G.nprods ∧ i.dot ≤ (G.rhs i.p).length) :
+    ∃ R, PagerImpl.goto G sym cl = some R ∧ KeysNodup R ∧
+      (∀ p d, CloseImpl.HasItem R p d ↔ ∃ d0, d = d0 + 1 ∧ CloseImpl.HasItem cl p d0 ∧ (G.rhs p)[d0]? = some sym) ∧
+      (∀ p d t, HasLa R p d t ↔ ∃ d0, d = d0 + 1 ∧ HasLa cl p d0 t ∧ (G.rhs p)[d0]? = some sym) := by
+  obtain ⟨R, e, h1, h2, h3⟩ := gotoLoop_spec G sym cl hok []
+  refine ⟨R, e, h3 (by simp [KeysNodup, keysOf]), ?_, ?_⟩
+  · intro p d; rw [h1]; simp [CloseImpl.HasItem]
+  · intro p d t; rw [h2]; simp [HasLa]
+
+/-- **Soundness of the construction, for EVERY order parameter.** For a well-formed grammar and exact
+nullable/FIRST oracles: whenever the modelled `pager_stategraph` ends normally — whatever the hash orders
+`orders` and whatever `maxStates` — the final state graph (after `gc`) satisfies
+(i) every core state is a hash map in range and every closed state denotes exactly the LR(1) closure
+(`ClosureP`, the specification side of `C16.close_impl_exact`) of its core state;
+(ii) state 0's core is the start item `[start_prod, 0]` with context `{eof}`;
+(iii) for every edge `(s, sym, t)`: `t` is a state, `goto (closed s) sym` is non-empty, has exactly the core
+items of `core t`, and each of its contexts is a subset of the corresponding context of `core t`
+(`GotoInto`);
+(iv) every symbol after a dot in a closed state has an edge;
+and there is one edge map per state and fewer than `maxStates` states.
+(The invariant behind it, `Lemmas/PagerInv.lean`/`PagerInvB.lean`: cores only grow; a closed state whose
+core grows is re-opened, so every state that is not open has `closed = close core`; an edge is inserted with
+its goto set included in the target's core at that moment; the edges of a re-processed state are all
+overwritten; state 0 is never a merge target. Pager's global theorem — no new conflicts for LR(1)
+grammars — is not part of this statement.) -/
+theorem pager_output_certified (G : Grammar) (hwf : G.wf = true) (N : Nat → Bool) (F : Nat × Nat → Bool)
+    (hN : ∀ r, N r = true ↔ Spec.NullableR G r) (hF : ∀ r t, F (r, t) = true ↔ Spec.FirstP G r t)
+    (maxStates : Nat) (orders : List Order) (out : Output) (h : pager G N F maxStates orders = .ok out) :
+    (∀ (k : Nat) (core cl : List Item), out.states[k]? = some (core, cl) → ItemsOk G core ∧ ClosedOf G core cl) ∧
+    (∃ cl, out.states[0]? = some ([⟨G.startProd, 0, [G.eof]⟩], cl)) ∧
+    (∀ (k : Nat) (core cl : List Item) (es : List (Sym × Nat)), out.states[k]? = some (core, cl) →
+      out.edges[k]? = some es → ∀ e ∈ es, ∃ tcore tcl, out.states[e.2]? = some (tcore, tcl) ∧ GotoInto G cl e.1 tcore) ∧
+    (∀ (k : Nat) (core cl : List Item) (es : List (Sym × Nat)), out.states[k]? = some (core, cl) →
+      out.edges[k]? = some es → ∀ p d X, CloseImpl.HasItem cl p d → (G.rhs p)[d]? = some X → ∃ e ∈ es, e.1 = X) ∧
+    out.edges.length = out.states.length ∧ out.states.length < maxStates := by
+  obtain ⟨inv, zs, hz, hgc, hmax, _⟩ := pager_ok_invA hwf hN hF h
+  have invB := pager_ok_invB hwf hN hF h
+  obtain ⟨hzl, hzs⟩ := zipStates_spec _ _ zs inv.len1 hz
+  have hpos : 0 < out.pre.core.length := by
+    by_cases h0 : 0 < out.pre.core.length
+    · exact h0
+    · have := inv.start; rw [List.getElem?_eq_none (by omega)] at this; cases this
+  obtain ⟨states', edges', hgc', hl1, hl2, hA, hsurj, _, _, hrange, h0⟩ :=
+    gc_spec zs 0 out.pre.edges (by rw [hzl]; exact inv.len2) (by omega)
+      (fun s es hes e he => by rw [hzl]; exact inv.edgeRange s es hes e he)
+  rw [hgc] at hgc'
+  simp only [Res.ok.injEq, Prod.mk.injEq] at hgc'
+  obtain ⟨e1, e2⟩ := hgc'
+  subst e1 e2
+  -- every final state is a reachable pre-gc state
+  have hback : ∀ (k : Nat) (core cl : List Item), out.states[k]? = some (core, cl) →
+      ∃ s, s < zs.length ∧ Reach out.pre.edges 0 s ∧ gcIndex out.pre.edges 0 s = k ∧
+        out.pre.core[s]? = some core ∧ out.pre.closed[s]? = some (some cl) := by
+    intro k core cl hk
+    have hklt : k < out.states.length := by
+      by_cases hlt : k < out.states.length
+      · exact hlt
+      · rw [List.getElem?_eq_none (by omega)] at hk; cases hk
+    obtain ⟨s, hs, hr, hks⟩ := hsurj k hklt
+    have := (hA s hs hr).1
+    rw [hks, hk] at this
+    obtain ⟨c1, c2⟩ := hzs s (core, cl) this.symm
+    exact ⟨s, hs, hr, hks, c1, c2⟩
+  -- the edge map of a final state is the renumbered edge map of that pre-gc state
+  have hedges : ∀ (s : Nat), s < zs.length → Reach out.pre.edges 0 s → ∀ es : List (Sym × Nat),
+      out.edges[gcIndex out.pre.edges 0 s]? = some es →
+      ∃ es0, out.pre.edges[s]? = some es0 ∧ es = relabel (gcIndex out.pre.edges 0) es0 := by
+    intro s hs hr es hes
+    have := (hA s hs hr).2
+    rw [hes] at this
+    cases he0 : out.pre.edges[s]? with
+    | none => rw [he0] at this; cases this
+    | some es0 =>
+      rw [he0] at this
+      simp only [Option.map_some, Option.some.injEq] at this
+      exact ⟨es0, rfl, this⟩
+  refine ⟨?_, ?_, ?_, ?_, hl2, hmax⟩
+  · intro k core cl hk
+    obtain ⟨s, _, _, _, c1, c2⟩ := hback k core cl hk
+    exact ⟨inv.coreOk s core c1, inv.closedOk s cl core c2 c1⟩
+  · have hz0 : ∃ z, zs[0]? = some z := ⟨zs[0]'(by omega), List.getElem?_eq_getElem (by omega)⟩
+    obtain ⟨z, hz0⟩ := hz0
+    have := (hA 0 (by omega) .start).1
+    rw [h0 rfl, hz0] at this
+    obtain ⟨c1, _⟩ := hzs 0 z hz0
+    rw [inv.start] at c1
+    simp only [Option.some.injEq] at c1
+    refine ⟨z.2, ?_⟩
+    rw [this, c1]
+  · intro k core cl es hk hes e he
+    obtain ⟨s, hs, hr, hks, c1, c2⟩ := hback k core cl hk
+    rw [← hks] at hes
+    obtain ⟨es0, hes0, rfl⟩ := hedges s hs hr es hes
+    obtain ⟨e0, he0, rfl⟩ := List.mem_map.mp he
+    obtain ⟨tgt, ht, hgoto⟩ := (invB.edgeOk s cl es0 (by simp) c2 hes0).1 e0 he0
+    have htl : e0.2 < zs.length := by rw [hzl]; exact inv.edgeRange s es0 hes0 e0 he0
+    have hr' : Reach out.pre.edges 0 e0.2 := .step s e0.2 e0.1 es0 hr hes0 he0
+    obtain ⟨z, hzt⟩ : ∃ z, zs[e0.2]? = some z := ⟨zs[e0.2]'htl, List.getElem?_eq_getElem htl⟩
+    obtain ⟨c1', _⟩ := hzs e0.2 z hzt
+    rw [ht] at c1'
+    simp only [Option.some.injEq] at c1'
+    refine ⟨z.1, z.2, ?_, by rw [← c1']; exact hgoto⟩
+    rw [(hA e0.2 htl hr').1, hzt]
+  · intro k core cl es hk hes p d X hi hX
+    obtain ⟨s, hs, hr, hks, c1, c2⟩ := hback k core cl hk
+    rw [← hks] at hes
+    obtain ⟨es0, hes0, rfl⟩ := hedges s hs hr es hes
+    obtain ⟨e0, he0, hk0⟩ := (invB.edgeOk s cl es0 (by simp) c2 hes0).2 p d X hi hX
+    exact ⟨(e0.1, gcIndex out.pre.edges 0 e0.2), List.mem_map.mpr ⟨e0, he0, rfl⟩, hk0⟩
+
+/-- **The graph-level conditions of `Cert.check` hold of every output of the modelled construction.** Under
+the hypotheses of `pager_output_certified`, the automaton view `toAutomaton out` of the final state graph
+satisfies the fields of `Cert.Props` that speak about the graph — i.e. the unpacked clauses `itemsOk`, K1
+(`startLt`, `startCore`, `startHas`), K2 (`kernelOfDot`, `coreSub`), K3′ (`edgeTarget`), K3 (`edgeExists`)
+and K6 (`justified`) of `Cert.check`. (Not covered, because they are not about the graph: K4 and K5 — the
+table built by `StateTable::new`, C03/C16 — and `wfG`, the shape of the grammar.) -/
+theorem pager_output_cert_graph_clauses (G : Grammar) (hwf : G.wf = true) (N : Nat → Bool) (F : Nat × Nat → Bool)
+    (hN : ∀ r, N r = true ↔ Spec.NullableR G r) (hF : ∀ r t, F (r, t) = true ↔ Spec.FirstP G r t)
+    (maxStates : Nat) (orders : List Order) (out : Output) (h : pager G N F maxStates orders = .ok out) :
+    let A := toAutomaton out
+    (∀ s, s < A.nstates → ∀ i ∈ A.closed s ++ A.core s, i.p < G.nprods ∧ i.dot ≤ (G.rhs i.p).length) ∧
+    A.start < A.nstates ∧
+    (∀ i ∈ A.core A.start, i.p = G.startProd ∧ i.dot = 0) ∧
+    Cert.HasItem (A.core A.start) G.startProd 0 ∧
+    (∀ s, s < A.nstates → ∀ i ∈ A.closed s, i.dot > 0 → Cert.HasItem (A.core s) i.p i.dot) ∧
+    (∀ s, s < A.nstates → ∀ i ∈ A.core s, Cert.HasItem (A.closed s) i.p i.dot) ∧
+    (∀ s, s < A.nstates → ∀ e ∈ A.edges s, e.2 < A.nstates ∧ A.core e.2 ≠ [] ∧
+      ∀ i ∈ A.core e.2, i.dot > 0 ∧ symAt G i.p (i.dot - 1) = some e.1 ∧ Cert.HasItem (A.closed s) i.p (i.dot - 1)) ∧
+    (∀ s, s < A.nstates → ∀ i ∈ A.closed s, ∀ X, symAt G i.p i.dot = some X →
+      ∃ t, A.edge s X = some t ∧ Cert.HasItem (A.core t) i.p (i.dot + 1)) ∧
+    (∀ s, s < A.nstates → ∀ i ∈ A.closed s, i.dot = 0 →
+      Cert.HasItem (A.core s) i.p 0 ∨ ∃ j ∈ A.closed s, symAt G j.p j.dot = some (.rule (G.lhs i.p))) := by
+  intro A
+  obtain ⟨h1, ⟨cl0, h2⟩, h3, h4, hlen, _⟩ := pager_output_certified G hwf N F hN hF maxStates orders out h
+  obtain ⟨hn, hview⟩ := toAutomaton_view out hlen
+  have hpos : 0 < out.states.length := by
+    by_cases h0 : 0 < out.states.length
+    · exact h0
+    · rw [List.getElem?_eq_none (by omega)] at h2; cases h2
+  have hstart : A.start = 0 := rfl
+  refine ⟨?_, by rw [hstart, hn]; exact hpos, ?_, ?_, ?_, ?_, ?_, ?_, ?_⟩
+  · intro s hs i hi
+    obtain ⟨core, cl, es, e1, e2, v1, v2, v3⟩ := hview s (by rw [← hn]; exact hs)
+    obtain ⟨hcore, hcl⟩ := h1 s core cl e1
+    have hclOk := closedOf_coreOk hwf hcore.1 hcl
+    rw [v1, v2] at hi
+    rcases List.mem_append.mp hi with hi | hi
+    · exact ⟨(hclOk.1 i hi).1, (hclOk.1 i hi).2.1⟩
+    · exact ⟨(hcore.1 i hi).1, (hcore.1 i hi).2.1⟩
+  · obtain ⟨core, cl, es, e1, e2, v1, v2, v3⟩ := hview 0 hpos
+    rw [h2] at e1; cases e1
+    rw [hstart, v1]
+    intro i hi
+    rw [List.mem_singleton] at hi; subst hi; exact ⟨rfl, rfl⟩
+  · obtain ⟨core, cl, es, e1, e2, v1, v2, v3⟩ := hview 0 hpos
+    rw [h2] at e1; cases e1
+    rw [hstart, v1]
+    exact ⟨_, List.mem_singleton.mpr rfl, rfl, rfl⟩
+  · intro s hs i hi hd
+    obtain ⟨core, cl, es, e1, e2, v1, v2, v3⟩ := hview s (by rw [← hn]; exact hs)
+    obtain ⟨_, hcl⟩ := h1 s core cl e1
+    rw [v2] at hi; rw [v1]
+    rcases closureP_item_inv ((hcl.2.1 i.p i.dot).mp ⟨i, hi, rfl, rfl⟩) with h | ⟨h0, _⟩
+    · exact h
+    · omega
+  · intro s hs i hi
+    obtain ⟨core, cl, es, e1, e2, v1, v2, v3⟩ := hview s (by rw [← hn]; exact hs)
+    obtain ⟨_, hcl⟩ := h1 s core cl e1
+    rw [v1] at hi; rw [v2]
+    exact (hcl.2.1 i.p i.dot).mpr (.kitem i hi)
+  · intro s hs e he
+    obtain ⟨core, cl, es, e1, e2, v1, v2, v3⟩ := hview s (by rw [← hn]; exact hs)
+    obtain ⟨hcore, hcl⟩ := h1 s core cl e1
+    have hclOk := closedOf_coreOk hwf hcore.1 hcl
+    rw [v3] at he
+    obtain ⟨tcore, tcl, ht, n, hg, hne, hsame, _⟩ := h3 s core cl es e1 e2 e he
+    have htlt : e.2 < out.states.length := getElem?_some_lt ht
+    obtain ⟨core', cl', es', e1', _, v1', _, _⟩ := hview e.2 htlt
+    rw [ht] at e1'; cases e1'
+    obtain ⟨_, a1, _⟩ := goto_itemsOk hclOk.1 hg
+    rw [v1', v2, hn]
+    refine ⟨htlt, ?_, ?_⟩
+    · intro hempty
+      cases n with
+      | nil => exact hne rfl
+      | cons x xs =>
+        obtain ⟨j, hj, _⟩ := (hsame x.p x.dot).mp ⟨x, List.mem_cons_self .., rfl, rfl⟩
+        rw [hempty] at hj; cases hj
+    · intro i hi
+      obtain ⟨d0, hd0, hitem, hsym⟩ := (a1 i.p i.dot).mp ((hsame i.p i.dot).mpr ⟨i, hi, rfl, rfl⟩)
+      rw [hd0]
+      exact ⟨by omega, by simpa [symAt] using hsym, by simpa using (show Cert.HasItem cl i.p d0 from hitem)⟩
+  · intro s hs i hi X hX
+    obtain ⟨core, cl, es, e1, e2, v1, v2, v3⟩ := hview s (by rw [← hn]; exact hs)
+    obtain ⟨hcore, hcl⟩ := h1 s core cl e1
+    have hclOk := closedOf_coreOk hwf hcore.1 hcl
+    rw [v2] at hi
+    have hX' : (G.rhs i.p)[i.dot]? = some X := by simpa [symAt] using hX
+    obtain ⟨e0, he0, hk0⟩ := h4 s core cl es e1 e2 i.p i.dot X ⟨i, hi, rfl, rfl⟩ hX'
+    cases hedge : A.edge s X with
+    | none =>
+      exfalso
+      simp only [Automaton.edge, Option.map_eq_none_iff, List.find?_eq_none] at hedge
+      have := hedge e0 (by rw [v3]; exact he0)
+      simp [hk0] at this
+    | some t =>
+      refine ⟨t, rfl, ?_⟩
+      have hmem := Cert.edge_mem hedge
+      rw [v3] at hmem
+      obtain ⟨tcore, tcl, ht, n, hg, _, hsame, _⟩ := h3 s core cl es e1 e2 (X, t) hmem
+      obtain ⟨core', cl', es', e1', _, v1', _, _⟩ := hview t (getElem?_some_lt ht)
+      rw [ht] at e1'; cases e1'
+      obtain ⟨_, a1, _⟩ := goto_itemsOk hclOk.1 hg
+      rw [v1']
+      exact (hsame i.p (i.dot + 1)).mp ((a1 i.p (i.dot + 1)).mpr ⟨i.dot, rfl, ⟨i, hi, rfl, rfl⟩, hX'⟩)
+  · intro s hs i hi hd
+    obtain ⟨core, cl, es, e1, e2, v1, v2, v3⟩ := hview s (by rw [← hn]; exact hs)
+    obtain ⟨_, hcl⟩ := h1 s core cl e1
+    rw [v2] at hi; rw [v1, v2]
+    rcases closureP_item_inv ((hcl.2.1 i.p i.dot).mp ⟨i, hi, rfl, rfl⟩) with h | ⟨_, p', d', hc, hsym⟩
+    · left; rw [hd] at h; exact h
+    · right
+      obtain ⟨j, hj, e1', e2'⟩ := (hcl.2.1 p' d').mpr hc
+      exact ⟨j, hj, by rw [e1', e2']; simpa [symAt, Closure.symAfter] using hsym⟩
+
+/-! ### non-vacuity (tests, evaluated by `decide`) -/
+
+/-- `^ → R0; R0 → R1; R1 → R4 R4; R4 → t0` (tokens `t0 $`, rules `^ R0 R1 R4`) -/
+def exMerge : Grammar :=
+  { ntoks := 2, nrules := 4, eof := 1, startProd := 0,
+    prods := [(0, [.rule 1]), (1, [.rule 2]), (2, [.rule 3, .rule 3]), (3, [.tok 0])] }
+
+/-- hash orders under which the state reached over `t0` is numbered (and closed) before the state
+reached over `R4`: the second `R4 → t0 ·` (context `$`) is then merged into a closed state, which is
+re-opened -/
+def exMergeOrders : List Order :=
+  [⟨[(0, 0)], [(3, 0), (0, 0), (1, 0), (2, 0)]⟩, ⟨[(3, 1)], [(3, 1)]⟩, ⟨[(0, 1)], [(0, 1)]⟩, ⟨[(1, 1)], [(1, 1)]⟩,
+   ⟨[(2, 1)], [(2, 1), (3, 0)]⟩, ⟨[(2, 2)], [(2, 2)]⟩, ⟨[(3, 1)], [(3, 1)]⟩]
+
+def exMergeRun : Res Output := pager exMerge (fun _ => false) (fun x => x.2 == 0) 1000 exMergeOrders
+
+/-- the modelled pager runs 7 iterations on it (state 1 twice), merges once, re-opens one state, ends
+with 6 states, and state 1's core context has become `{t0, $}` -/
+example : (match exMergeRun with
+    | .ok o => o.log.map (·.1) == [0, 1, 2, 3, 4, 5, 1] && o.pre.nmerge == 1 && o.pre.nreopen == 1 &&
+        o.states.length == 6 && (o.states.getD 1 ([], [])).1 == [⟨3, 1, [0, 1]⟩] &&
+        o.edges.getD 4 [] == [(.rule 3, 5), (.tok 0, 1)]
+    | _ => false) = true := by decide
+
+/-- an order that is not an enumeration of the keys is refused -/
+example : (match pager exMerge (fun _ => false) (fun x => x.2 == 0) 1000 [⟨[(0, 0)], [(3, 0)]⟩] with
+    | .badOrder => true
+    | _ => false) = true := by decide
+
+/-- too few orders: the loop is cut off -/
+example : (match pager exMerge (fun _ => false) (fun x => x.2 == 0) 1000 (exMergeOrders.take 3) with
+    | .fuelOut => true
+    | _ => false) = true := by decide
+
+/-- `gc` on four states whose second state is unreachable: it is dropped, the edges to states 2 and 3 are
+renumbered to 1 and 2 -/
+example : (match gc ["s0", "s1", "s2", "s3"] 0 [[(.tok 0, 2)], [(.tok 0, 3)], [(.tok 1, 3), (.rule 0, 0)], []] with
+    | .ok r => r.1 == ["s0", "s2", "s3"] && r.2 == [[(.tok 0, 1)], [(.tok 1, 2), (.rule 0, 0)], []]
+    | _ => false) = true := by decide
+
+/-- Pager's condition on a pair: `{[0,1]:{0}, [1,1]:{1}}` against `{[0,1]:{1}, [1,1]:{0}}` is NOT weakly
+compatible (merging would create a reduce/reduce conflict); against `{[0,1]:{2}, [1,1]:{3}}` it is -/
+example : weaklyCompatible [⟨0, 1, [0]⟩, ⟨1, 1, [1]⟩] [⟨1, 1, [0]⟩, ⟨0, 1, [1]⟩] [(0, 1), (1, 1)] = some false := by decide
+example : weaklyCompatible [⟨0, 1, [0]⟩, ⟨1, 1, [1]⟩] [⟨1, 1, [3]⟩, ⟨0, 1, [2]⟩] [(1, 1), (0, 1)] = some true := by decide
 
 end GrmVerif.C02
